@@ -50,13 +50,14 @@ RefCoordinatesOp(o, nm, refstart, reflen) ==
            first == p[refstart + 1]
            last  == p[refstart + reflen]
        IN Res(FALSE, o, <<>>, [start |-> first - 1, len |-> last - first + 1], TRUE)
-\* RefSites: alignment positions of the given ungapped reference positions, ascending.
-\* A site >= the ungapped length yields nothing (left open by the property).
-RefSitesErr(o, nm, sites) == ~HasName(o, nm) \/ \E k \in 1..Len(sites) : sites[k] < 0 \/ sites[k] >= o.len
+\* RefSites: the alignment positions of the given ungapped reference positions, in the order given (repeats kept:
+\* "the addressed columns in the addressed order"); a position the reference does not have is rejected
+RefSitesErr(o, nm, sites) ==
+  ~HasName(o, nm) \/ \E k \in 1..Len(sites) : sites[k] < 0 \/ sites[k] >= Len(NonGapPos(RowOfName(o, nm).s))
 RefSitesOp(o, nm, sites) ==
   IF RefSitesErr(o, nm, sites) THEN Fail(o)
   ELSE LET p == NonGapPos(RowOfName(o, nm).s)
-       IN Res(FALSE, o, <<>>, [sites |-> SeqOfSet({p[k] - 1 : k \in {k \in 1..Len(p) : Member(sites, k - 1)}})], TRUE)
+       IN Res(FALSE, o, <<>>, [sites |-> [k \in 1..Len(sites) |-> p[sites[k] + 1] - 1]], TRUE)
 
 \* ---- partitions ------------------------------------------------------------------
 \* AddRange(part, start, end, modulo) applied in order to a fresh partition set of length plen.
